@@ -51,6 +51,14 @@ ExplainsBig(cfg, c, r) ==
               /\ \A q \in 1..Len(c.a.is) :
                     /\ r.v1[q] = SRank(n, P, R, X, 1, c.a.is[q])
                     /\ r.v0[q] = SRank(n, P, R, X, 0, c.a.is[q])
+         \* (thorough tier) an all-ones vector of 2^32 + n bits: positions and rank_1 answers are logged
+         \* minus 2^32 (cfg.base): rank_1(2^32 + d) = 2^32 + d + 1, rank_0 = 0, None from d = n on
+         [] c.op = "rank_hi" ->
+              /\ P = 1 /\ R = {0} /\ X = {}
+              /\ Len(r.none) = Len(c.a.ds) /\ Len(r.v1d) = Len(c.a.ds) /\ Len(r.v0) = Len(c.a.ds)
+              /\ \A q \in 1..Len(c.a.ds) :
+                    IF c.a.ds[q] >= n THEN r.none[q] = 1
+                    ELSE r.none[q] = 0 /\ r.v1d[q] = c.a.ds[q] + 1 /\ r.v0[q] = 0
          [] c.op = "select" ->
               /\ Len(r.s1) = Len(c.a.js) /\ Len(r.s0) = Len(c.a.js)
               /\ \A q \in 1..Len(c.a.js) :
